@@ -18,8 +18,8 @@ pub fn def() -> PropDef {
             name: "arith",
             cfg_len: 0,
             tape_max: 120,
-            quick: 400_000,
-            thorough: 40_000_000,
+            quick: 4_000_000,
+            thorough: 200_000_000,
             max_shrink_iters: 2000,
             run,
         }],
